@@ -53,7 +53,7 @@ def gen_cases(seed, tier):
 
     def add(name, **kw):
         d = {"name": name, "kind": "regular", "reps": 1, "mode": 0o644, "unit": unit(), "path": "f.sh",
-             "tmp": "own", "arg": "file"}
+             "tmp": "own", "arg": "file", "links": [], "relarg": False}
         d.update(kw)
         cases.append(d)
 
@@ -71,6 +71,13 @@ def gen_cases(seed, tier):
     add("subdir", path="sub/dir/g.bash", reps=2, mode=0o640)
     add("walk_dir", arg="dir", path="sub/h.sh", reps=2, mode=0o755)
     add("noext_shebang", arg="dir", path="sub/script", unit=b"#!/bin/sh\n" + unit(), reps=1, mode=0o755)
+    # targets with a second hard link (another name for the same inode), reached through relative paths, tiny, big
+    add("hardlink", links=["other/alias_link"], reps=2, mode=0o644)
+    add("hardlink_rel_nested", links=["z/alias2"], path="sub/deep/er/k.sh", relarg=True, reps=1, mode=0o755, tmp="missing")
+    add("hardlink_tiny", unit=b" x\n", links=["alias3", "other/alias4"], mode=0o600)
+    add("hardlink_big", links=["other/alias_big"], reps=2600 + rnd.randrange(800), mode=0o640)
+    add("relative_arg", relarg=True, path="sub/r.sh", reps=2)
+    add("relative_dir_arg", relarg=True, arg="dir", path="sub/s.sh", reps=1, tmp="missing")
     # targets that must not be replaced
     add("formatted", kind="formatted", unit=b"echo %s\n" % word(), reps=3)
     add("empty", kind="formatted", unit=b"", reps=0)
@@ -103,6 +110,9 @@ class Env:
         else:
             self.tmp = other_fs or os.path.join(root, "nonexistent")
         self.arg = self.target if case["arg"] == "file" else self.d
+        if case.get("relarg"):
+            self.arg = os.path.relpath(self.arg, root)     # shfmt runs with cwd = root
+        self.before_ino = {}
 
     def setup(self):
         shutil.rmtree(self.root, ignore_errors=True)
@@ -125,6 +135,10 @@ class Env:
             with open(self.target, "wb") as f:
                 f.write(c["orig"])
             os.chmod(self.target, c["mode"])
+            for ln in c.get("links") or []:
+                lp = os.path.join(self.d, ln)
+                os.makedirs(os.path.dirname(lp), exist_ok=True)
+                os.link(self.target, lp)
 
     def cleanup(self):
         shutil.rmtree(self.root, ignore_errors=True)
@@ -473,6 +487,8 @@ Definition obs_ok (s : fs) (obs : list (str * option inode)) : bool :=
 Definition pred_ok (t : list op) (s0 : fs) (obs : list (str * option inode)) : bool :=
   match run t s0 with Some s => obs_ok s obs | None => false end.
 Definition untouched_prefix_ok (target : str) (t : list op) : bool := is_some (crun false target 0 [] cst0 t).
+(* a second directory entry for the inode of an existing name (hard link) *)
+Definition add_link (s : fs) (name old : str) : fs := mkFs (upd_s (dir s) name (dir s old)) (ino s) (fds s) (next s).
 """
 
 
@@ -493,7 +509,8 @@ def run(ctx):
     cases = gen_cases(ctx.seed, ctx.tier)
     ctx.rule = ("fixed enumeration of target shapes: regular files of 1 unit, ~60 units, >64 KiB (thorough: 1 MiB), "
                 "whitespace-only (formatted output empty), modes 0644 0600 0755 0444 0666 0640 0700 0664, file in "
-                "sub-directories, directory walk, $TMPDIR usable / missing / on another file system, already "
+                "sub-directories, directory walk, relative path arguments, targets with one or two further hard links (small, tiny, "
+                ">64 KiB, nested + relative), $TMPDIR usable / missing / on another file system, already "
                 "formatted, empty, parse error, symlink, FIFO (explicit and inside a walked directory); the seed "
                 "picks identifiers/units/sizes and which cases get full fault enumeration in the quick tier; "
                 "non-trivial = distinct (case, killed system call class, k) with a kill at/after the first access "
@@ -524,10 +541,10 @@ def run(ctx):
     quick_key = set()    # only the boundaries around the mutating calls of the write protocol
     for i in reg[:1] + non[:2]:
         quick_full.add(cases[i]["name"])
-    for i in reg[1:4]:
+    for i in reg[1:3]:
         quick_key.add(cases[i]["name"])
-    if ctx.seed % 2 == 0:
-        quick_key.add("big64k")
+    quick_key.update(["hardlink", "hardlink_rel_nested", "hardlink_tiny"])
+    quick_key.add("big64k" if ctx.seed % 2 == 0 else "hardlink_big")
     blocks = []         # per case: (definitions, [C<k> definitions])
     labels = []
     nkill = 0
@@ -548,6 +565,7 @@ def run(ctx):
         def one_run(inject=None):
             env.setup()
             before = env.snapshot()
+            env.before_ino = {n: os.lstat(n).st_ino for n in before if before[n] is not None}
             out = os.path.join(env.root, "strace.out")
             argv = ["strace", "-f", "-qq", "-xx", "-s", "8000000", "-o", out, "-e", TRACE_SET]
             if inject:
@@ -604,9 +622,15 @@ def run(ctx):
 
         def coq_case(label, ops, before, after, full):
             s0 = "empty_fs"
+            first = {}          # inode number -> first name: further names of the same inode are hard links
             for n in sorted(before):
                 if before[n] is not None and before[n][0] in KIND:
-                    s0 = "(add_file %s %s %s)" % (s0, enc.data(n.encode()), coq_inode(enc, before[n]))
+                    i = env.before_ino.get(n)
+                    if i in first:
+                        s0 = "(add_link %s %s %s)" % (s0, enc.data(n.encode()), enc.data(first[i].encode()))
+                    else:
+                        first[i] = n
+                        s0 = "(add_file %s %s %s)" % (s0, enc.data(n.encode()), coq_inode(enc, before[n]))
             tr = coq_list([coq_op(enc, o) for o in ops])
             obs = coq_list(["(%s, %s)" % (enc.data(n.encode()),
                                          ("Some " + coq_inode(enc, after[n])) if after[n] is not None and after[n][0] in KIND else "None")
